@@ -1,5 +1,6 @@
 import PhysisModel.Proofs.Dat
 import PhysisModel.Properties.C01
+import PhysisModel.Proofs.BinrwTieDat
 /-!
 # C02 — extraction returns exactly the bytes that were packed
 
@@ -177,5 +178,51 @@ example : modelWf ⟨[b1], [b2], [b1, b2], [b1], [], [], [], [b2], [], [b2, b2],
 128-byte prefix -/
 example : readFromOffset storedInflate (List.replicate 128 7 ++ packStandard [b1, b2] ++ [5, 5]) 128 =
     some (some [10, 20, 30, 40, 50, 1, 2, 3]) := by decide +kernel
+
+end Physis.C02
+
+/-! ### T4: binrw declarations regenerated from the source
+
+`Generated/BinrwDat.lean` is re-translated from the `#[binrw]`/`#[derive(BinRead)]` declarations of
+`src/sqpack/data.rs` on every run (`lib/binrw2lean.py`); the hand-written readers of `Model/Dat.lean`
+are `Layout.read` of the regenerated descriptors followed by a pure projection
+(`Proofs/BinrwTieDat.lean`), for all inputs. -/
+namespace Physis.C02
+open Physis.Binrw Physis.Generated
+
+theorem c02_binrw_TextureLodBlock (l : Bytes) :
+    Dat.readLod l = via BinrwTie.Dat.lodOf (Layout.read BinrwTie.Dat.endian BinrwDat.textureLodBlock l) :=
+  BinrwTie.Dat.readLod_eq_generated l
+
+/-- `Vec<TextureLodBlock>` with `count = n` -/
+theorem c02_binrw_TextureLodBlock_vec (n : Nat) (l : Bytes) :
+    Dat.readLods n l =
+      (repeatN (Kind.read BinrwTie.Dat.endian [] (.struct BinrwDat.textureLodBlock)) n l).bind fun vs =>
+        (projAll BinrwTie.Dat.lodOfV vs.1).map (·, vs.2) :=
+  BinrwTie.Dat.readLods_eq_generated n l
+
+/-- `Block` (`offset: i32`, `pad_after = 4`) × n -/
+theorem c02_binrw_Block_vec (n : Nat) (l : Bytes) :
+    Dat.readBlocks n l =
+      (repeatN (Kind.read .little [] (.struct BinrwDat.block)) n l).bind fun vs =>
+        (projAll BinrwTie.Dat.offsetOfV vs.1).map (·, vs.2) :=
+  BinrwTie.Dat.readBlocks_eq_generated n l
+
+/-- `BlockHeader`: the translated prefix (size, pad 4, x, y), then `compression` reads one more i32
+and restores the position -/
+theorem c02_binrw_BlockHeader (l : Bytes) :
+    Dat.readBlockHeader l =
+      (via BinrwTie.Dat.blockHeaderOf (Layout.read .little BinrwDat.blockHeader l)).bind fun x =>
+        (Reader.u32le x.2).map fun _ => x :=
+  BinrwTie.Dat.readBlockHeader_eq_generated l
+
+/-- `FileInfo`: the translated prefix (size, `file_type` as `repr = i32` enum {1,2,3,4}, file_size), then the
+block `file_type` selects — `StandardFileBlock` and `TextureBlock` (`count = num_blocks`) through their
+regenerated layouts -/
+theorem c02_binrw_FileInfo (l : Bytes) :
+    Dat.readFileInfo l =
+      (Layout.read .little BinrwDat.fileInfo l).bind
+        (BinrwTie.Dat.infoRest BinrwDat.standardFileBlock BinrwDat.textureBlock) :=
+  BinrwTie.Dat.readFileInfo_eq_generated l
 
 end Physis.C02
